@@ -10,7 +10,7 @@ from common import Driver, DriverFailure, hx
 
 LEVEL = "proof"
 MANIFEST = dict(
-    text="Lean 4 theorems for every item satisfying the decidable Item.WF (all shipped items except the 3 of finding D9, by C18's whole-table evaluation), every 1024-byte block and every domain value: write-then-read returns the value (read_after_write + per-kind corollaries), only bits of the item's own field change (write_touches_only_own_field), items with a disjoint field keep their value (other_items_unchanged), read-only items refuse, string forms, and the blocking/awaitable paths emit identical writes. The shift/mask/merge arithmetic is translated from accessor.py on every run; type dispatch / labels / time format are a hand model tied by a differential correspondence on the real accessors (thorough: all 20 505 items)."
+    text="Lean 4 theorems for every item satisfying the decidable Item.WF (all shipped items except the 3 of finding D9, by C18's whole-table evaluation), every 1024-byte block and every domain value: write-then-read returns the value (read_after_write + per-kind corollaries), only bits of the item's own field change (write_touches_only_own_field), items with a disjoint field keep their value (other_items_unchanged), read-only items refuse, string forms, and the blocking/awaitable paths emit identical writes. The shift/mask/merge arithmetic is translated from accessor.py on every run; type dispatch / labels / time format are a hand model tied by a differential correspondence on the real accessors (thorough: all 20 505 items). Session 4: every stored word of a window (0..1099 plus a seeded sample of the rest) of the writable temperature items of two shipped pairs is presented in both units and written back through the blocking and the awaitable path: the device write must carry that word."
          ' Since session 3: adversarial prior contents for bit fields (the whole field equals the integer about to be merged in, and its complement) and a no-write oracle.',
     note="Trusted: Lean kernel; translator for the three arithmetic expressions; the correspondence harness; 'applied to the block' = the spa stores struct.pack of the value at pos (as the bundled simulator does). Temperature items' unit conversion is C14.",
     technique='Lean 4 bit-level proofs (Nat.testBit) over source-translated merge arithmetic + differential correspondence of the hand model on all shipped items',
